@@ -555,7 +555,7 @@ def gen_slice(world, draw, profile):
         return None
     pi = draw(st.sampled_from(ps))
     pe = world.pool[pi]
-    sel = any_selector(draw, pe.view['rows'], pe.view['cols'])
+    sel = any_selector(draw, pe.view['rows'], pe.view['cols'], dups=getattr(world, 'dup_wells', False))
     if sel['t'] == 'plate':
         sel = {'t': 'all'}
     return {'op': 'slice', 'plate': pi, 'sel': sel}
